@@ -254,7 +254,7 @@ pub fn run(tier: Tier, part_only: bool) -> i32 {
         Ok(p) => p.merge_into(&mut rep),
         Err(e) => rep.machinery(e),
     }
-    rep.set("rule", json!("cases = message shapes of C04 (every item-kind sequence up to length 2 (3), flat and nested, small and 3-packet; transfer chains), C01 (+-16 windows around k x packet capacity, fake and kernel-enforced buffers), C13 (ENOBUFS patterns), C15 (0..=66 attachments x mixtures x data parts), C12 (every crash index, receiver side) and shared-memory regions (lengths 0,1,2,P-1,P,P+1,2P-1,2P,2P+1,100000 x platform/ipc API x from_bytes/from_byte x clones x sent or not), each executed on the plain build under two allocation fill bytes and on the AddressSanitizer build with kernel-boundary range checks; a case passes when its own payload/attachment oracle passes and no sanitizer report, assertion, ub_check or signal ends the process"));
+    rep.set("rule", json!("cases = message shapes of C04 (every item-kind sequence up to length 2 (3), flat and nested, small and 3-packet; transfer chains), C01 (+-16 windows around k x packet capacity, fake and kernel-enforced buffers), C13 (ENOBUFS patterns), C15 (0..=66 attachments x mixtures x data parts), C12 (every crash index, receiver side) and shared-memory regions (lengths 0,1,2,P-1,P,P+1,2P-1,2P,2P+1,100000 x platform/ipc API x from_bytes/from_byte x clones x sent or not), each executed on the plain build under two allocation fill bytes and on the AddressSanitizer build with kernel-boundary range checks; a case passes when its own payload/attachment oracle passes and no sanitizer report, assertion, ub_check or signal ends the process; cases are distinct by construction (different shape, monitor and fill) and every one counts as non-trivial (a message or region goes through the unsafe transport code under a monitor)"));
     rep.set("exhaustive", json!(true));
     rep.assume("AddressSanitizer (nightly -Zsanitizer=address) instruments the harness and the crate under test; the libc entry points the harness defines re-implement ASan's range checks at exactly the ranges the kernel may touch");
     rep.assume("valgrind is not used for the verdict (it flags the uninitialised padding of the malloc'ed control buffer, which is benign)");
